@@ -1212,7 +1212,7 @@ fn producer_points(kind: Kind, load: &Load) -> Vec<&'static str> {
 fn main() {
     let a = parse_args();
     let mut res = RunResult::new("C06", &a);
-    res.rule = "case = (stream kind, load, number of subscribers, schedule prefix over {0 = producer, i = subscriber i, 9 = producer of ANOTHER thread on the shared continuity channel}); the schedule is forced on the real axum router through the rip_verif points (record/publish in the emitters and continuity appends incl. the file-system steps of log and sidecar, subscribe/snapshot in the handlers); enumeration per load: every pair (a, b) of relevant producer positions with a <= b (b at most 4 positions after a in quick, 7 in thorough, or the end of the run): the subscriber subscribes after a producer steps and snapshots after b; plus position 0 (before the stream starts) and after the run ended; plus seeded random interleavings of 2-4 concurrent subscribers; plus fast consumers that read their body 1-6 times WHILE the stream is produced (point c06.read; each read must return every frame published so far); thread kind in addition: a foreign producer (POST /threads/{id}/branch) before the attach / between subscribe and snapshot / randomly interleaved; corpus first (S8 witnesses, the 18007-frame lag witness); non-trivial = the subscriber attaches strictly inside the run (after the first and before the last producer record/publish step)".into();
+    res.rule = "case = (stream kind, load, number of subscribers, schedule prefix over {0 = producer, i = subscriber i, 9 = producer of ANOTHER thread on the shared continuity channel}); the schedule is forced on the real axum router through the rip_verif points (record/publish in the emitters and continuity appends incl. the file-system steps of log and sidecar, subscribe/snapshot in the handlers); enumeration per load: every pair (a, b) of relevant producer positions with a <= b (b at most 4 positions after a in quick, 7 in thorough, or the end of the run): the subscriber subscribes after a producer steps and snapshots after b; plus position 0 (before the stream starts) and after the run ended; plus seeded random interleavings of 2-4 concurrent subscribers; plus fast consumers that read their body 1-6 times WHILE the stream is produced (point c06.read; each read must return every frame published so far); thread kind in addition: a foreign producer (POST /threads/{id}/branch) before the attach / between subscribe and snapshot / randomly interleaved; session / task kinds in addition: attach AFTER the last frame, inside the snapshot write at the end of the run (producer parked at snap.created / snap.written / snap.flushed; the subscriber's snapshot step is granted although the buffer lock is believed held); thread kind in addition: the sidecar cache is deleted (whole directory / the thread's file) after a producer steps, the producer goes on for d steps, then a subscriber attaches; hook-free: one long `bash seq 1 k` session on a multi-thread runtime with subscribers attaching before the input, in the middle of the run and 15 times back to back from the moment the snapshot file appears (oracle only); corpus first (S8 witnesses, the 18007-frame lag witness, end-of-run attach, cache loss); non-trivial = the subscriber attaches strictly inside the run (after the first and before the last producer record/publish step)".into();
     let verif_root = std::env::current_exe().ok().and_then(|p| p.ancestors().nth(4).map(|x| x.to_path_buf())).unwrap_or_else(|| PathBuf::from("/verif"));
     let mut cases: Vec<Case> = vec![];
     if let Some(rp) = &a.replay {
@@ -1250,7 +1250,8 @@ fn main() {
     let repo_root = a.repo();
     let mut r = Rng::new(a.seed);
     // ---- hook-free: attach around the end of a long run on a multi-thread runtime
-    for k in if thorough { vec![6000u64, 3000, 1500] } else { vec![3000u64] } {
+    // (20 000 lines: more frames than the channel holds - the subscribers attached before / during the run lag and refill)
+    for k in if thorough { vec![6000u64, 3000, 1500, 20000] } else { vec![3000u64] } {
         cases.push(Case { kind: Kind::Session, load: Load::EndRace(k), subs: 5, sched: vec![], others: 0, reads: 0, loss: 0, probe: false });
     }
     // ---- two producers on one task stream (stdout pump / stderr pump): one emit = 9 points
